@@ -904,6 +904,17 @@ pub fn c08(ctx: &mut Ctx) {
             }
         }
     }
+    // long records
+    for (len, seed) in [(4097usize, 1u64), (20_000, 3), (70_000, 4)] {
+        let s = crate::iters::long_input(len, seed);
+        for k in [1usize, 3, 7] {
+            if sh.mine() {
+                let table = synthetic_table(k.min(3), 2, 5);
+                c08_one(ctx, &s, k.min(3), &table, 2, 5);
+                n += 1;
+            }
+        }
+    }
     ctx.rep.count("cases.per_record", n);
     drop(todo);
     // pipeline on small record lists
